@@ -251,6 +251,8 @@ def r5(ctx):
     ctx.sub(c01.r3)
     ctx.sub(c01.r4)
     ctx.sub(c01.r5)
+    ctx.sub(c01.r6, only=("start:cost",))   # "... and the reported cost equals" the cost of the returned path
+    ctx.sub(c01.r7)                          # which follows the stored back-pointers
 
 
 @rule("C07", "R6", "RANGE", "each series is stacked exactly (no window mixes two series; no series loses or gains rows)")
